@@ -120,7 +120,17 @@ func (c *P2Claims) SetCertificationReference(v string) error {
 
 func (c *P2Claims) SetSoftwareComponents(scs []ISwComponent) error {
 	if c.SwComponents == nil {
-		c.SwComponents = &SwComponents[*SwComponent]{}
+		// only install a new container if the components are accepted, so
+		// that a failed call leaves the claims-set as it was
+		swComponents := &SwComponents[*SwComponent]{}
+
+		if err := swComponents.Replace(scs); err != nil {
+			return err
+		}
+
+		c.SwComponents = swComponents
+
+		return nil
 	}
 
 	return c.SwComponents.Replace(scs)
